@@ -353,6 +353,7 @@ def run(prop, tier, seed):
         assumptions=['std models of engine A (Rc/Arc/Weak, RefCell, RwLock single-thread semantics, Vec, slice iterators, Option/Result) as listed in std_models_used',
                      'rustc MIR (-Zunpretty=mir, overflow-checks on, debug-assertions off) is what gets compiled',
                      'keys are distinct concrete integers; behaviour is invariant under key relabelling (K: Eq+Hash+Clone+Display only)',
-                     'every reachable adjacency state is the image of a connect-only history of its surviving edges'],
+                     'every reachable adjacency state is the image of a connect-only history of its surviving edges - up to hidden allocation state (Vec capacity follows the modelled std growth policy); the thorough tier additionally puts one removal before the operation on hub states',
+                     'with value-independent control flow most assertions are decided by z3 term simplification (the two sides are the same term); the solver proper is needed - and produces the model - exactly when an implementation mixes up values'],
         rule='work item = (canonical connect sequence, operation, operands, handle provenance); paths = executor paths through the real MIR; every assertion is a z3 condition over all edge values',
         expected_cells=[(fl, op) for fl in flavours for op in OPS])
